@@ -178,12 +178,28 @@ class SelModel:
         return ths
 
     def _instr_match(self, f):
+        """The dispatching match (the one whose arms are Instr:: patterns) and the names emit_program gives to
+        the instruction, the live bitmap, the loop index and its parameters (no name is assumed)."""
         ms = []
         for m in walk_t(f["node"]["body"], "Match"):
-            if path_name(strip_paren(m["expr"])) == "instr":
+            n = sum(1 for a in m["arms"] if a["pat"]["t"] in ("PTupleStruct", "PPath") and a["pat"]["path"]["name"].startswith("Instr::"))
+            if n >= 10 and path_name(strip_paren(m["expr"])):
                 ms.append(m)
         if len(ms) != 1:
-            raise Missing(f"emit_program: expected exactly one `match instr`, found {len(ms)}")
+            raise Missing(f"emit_program: expected exactly one dispatching `match <instr>`, found {len(ms)}")
+        self.names = {"instr": path_name(strip_paren(ms[0]["expr"])), "live": "live", "i": "i"}
+        ps = [p["pat"]["name"] for p in f["node"]["sig"]["inputs"] if p["t"] == "Arg" and p["pat"]["t"] == "PIdent"]
+        if len(ps) == 3:
+            self.names.update(program=ps[0], limited=ps[1], safe=ps[2])
+        else:
+            self.names.update(program="program", limited="limited", safe="safe")
+        for l in walk_t(f["node"]["body"], "ForLoop"):
+            if any(x is ms[0] for x in walk(l["body"])):
+                ids = [n["name"] for n in walk_t(l["pat"], "PIdent")]
+                # for (i, (&instr, &live)) in ..zip(..).enumerate()
+                if len(ids) == 3 and self.names["instr"] in ids:
+                    rest = [x for x in ids if x != self.names["instr"]]
+                    self.names["i"], self.names["live"] = rest[0], rest[1]
         return ms[0]
 
     def intervals(self):
@@ -668,10 +684,10 @@ def evaluate(model, op, kinds, inp):
     it = SelInterp(model, inp)
     env = Env()
     env.bind("self", SelfV())
-    env.bind("instr", InstrV(op, locs))
-    env.bind("live", LiveV())
+    env.bind(model.names["instr"], InstrV(op, locs))
+    env.bind(model.names["live"], LiveV())
     for n in ("program", "i", "limited", "safe"):
-        env.bind(n, Opaque(n))
+        env.bind(model.names[n], Opaque(n))
     out = {"arm": None, "seq": [], "status": "ok", "msg": "", "arm_line": None, "wild": False}
     try:
         it.eval(model.match, env)
